@@ -3,6 +3,7 @@
 mod explore;
 mod fam_lifecycle;
 mod fam_mailbox;
+mod fam_timer;
 mod tdrv;
 mod hctl;
 mod trace;
@@ -56,6 +57,7 @@ fn main() {
     let fams: &[fn(&str, &HashMap<String, String>) -> Option<serde_json::Value>] = &[
         fam_mailbox::dispatch,
         fam_lifecycle::dispatch,
+        fam_timer::dispatch,
     ];
     for f in fams {
         if let Some(summary) = f(&cmd, &a) {
